@@ -62,7 +62,9 @@ func genCLIArg(r *Rng) (string, string, string) {
 	a := numeral(r, addr)
 	plus := ""
 	if r.Chance(1, 2) {
-		plus = "+" + numeral(r, uint64(pickInt(r, []int{0, 1, 2, 5, 7, 10, 30, 61, 62, 124, 125, 199, 1999, 2000, 65535})))
+		plus = "+" + numeral(r, uint64(pickInt(r, []int{0, 1, 2, 5, 7, 10, 30, 61, 62, 124, 125, 199, 1999, 2000, 65535,
+			// counts whose register total (x2, x4) wraps in 16 bits to something small
+			16383, 16384, 16390, 32767, 32768, 32770, 32780, 49152, 49160, 65534})))
 	}
 	switch r.Intn(16) {
 	case 0, 1:
@@ -157,7 +159,10 @@ var c20Numerals = []string{"+5", "-0", "0x", "0X1f", "1_000", "0b101", "0o17", "
 	"1__0", "_1", "1_", "08", "0B_1", "65536", "0xFFFF", "0200000", "-32768", "-0x8000", "0_x1", "0X_f_F", "32767", "32768", "-32769", "0b", "0o", "-", "+", "0x10000", "-1"}
 
 func c20Corpus() [][]string {
-	var out [][]string
+	out := [][]string{
+		{"rh:uint64:0x100+16384"}, {"ri:int64:8+32770"}, {"rh:uint64:0+49160"}, {"rh:uint32:0+32770"}, {"ri:float32:1+32800"}, {"rh:float64:2+16390"},
+		{"rh:uint64:0+30", "rh:uint64:0+31"}, {"rc:0+65535"}, {"rh:uint16:0+65535"},
+	}
 	for _, n := range c20Numerals {
 		out = append(out, []string{"wr:uint16:0x10:" + n, "rh:uint16:0x10"}, []string{"wr:int16:0x10:" + n, "rh:int16:0x10"},
 			[]string{"rh:uint16:" + n}, []string{"rc:1+" + n}, []string{"sid:" + n, "ri:uint16:3"}, []string{"wr:int32:7:" + n, "wr:uint64:9:" + n, "rh:uint16:7+5"})
